@@ -29,12 +29,12 @@ LEVEL_NOTE = ('Cell values encode (model, aperture, wavelength); exact rational 
 RULE = ("cases: package configurations; executions: convolve_model_dir on both formats (+ memmap variants), every output row compared, then Fitter.fit on 4 variants x sources; "
         "non-trivial = distinct configurations with >= 2 models")
 ASSUMPTIONS = ["all SEDs of a package share the wavelength grid", "finite value alphabets"]
-REQUIRED_CLASSES = ['two-packages-under-one-relative-path', 'spectra-of-100-points-or-more', 'filters-overhanging-both-ends-of-the-spectra', 'more-than-128-models', 'permuted-table', 'filenames-disagree-with-model-names', 'listing-reversed', 'sed-wav-ascending', 'three-filters', 'single-model', 'eight-models',
+REQUIRED_CLASSES = ['per-file-seds-stored-as-nuFnu', 'two-packages-under-one-relative-path', 'spectra-of-100-points-or-more', 'filters-overhanging-both-ends-of-the-spectra', 'more-than-128-models', 'permuted-table', 'filenames-disagree-with-model-names', 'listing-reversed', 'sed-wav-ascending', 'three-filters', 'single-model', 'eight-models',
                     'five-apertures', 'formats-compared', 'fits-compared', 'remove-resolved', 'all-permutations-4', 'apertures-in-other-unit', 'seds-in-subdirs-or-gz', 'parameters-gz', 'seds-stored-in-Jy', 'seds-on-different-grids', 'single-real-aperture', 'error-column-in-other-unit', 'convolve-after-listing']
 TIMEOUT = {'quick': 600, 'thorough': 3000}
 
 AXES = {'n_models': [3, 1, 2, 5, 8], 'n_ap': [2, 1, 3, 5], 'perm': ['identity', 'reversed', 'rotated', 'swap01'], 'fnames': ['same', 'reversed'],
-        'listing': ['sorted', 'reversed'], 'sord': ['wav-desc', 'wav-asc'], 'nfilt': [1, 3, 5], 'rr': [False, True], 'ap_unit': ['AU', 'pc', 'cm'], 'layout': ['flat', 'subdir', 'gz', 'subdir+gz'], 'par_gz': [False, True], 'funit': ['mJy', 'Jy'], 'grids': ['same', 'interior'], 'single_ap_real': [False, True], 'err_unit': ['same', 'other']}
+        'listing': ['sorted', 'reversed'], 'sord': ['wav-desc', 'wav-asc'], 'nfilt': [1, 3, 5], 'rr': [False, True], 'ap_unit': ['AU', 'pc', 'cm'], 'layout': ['flat', 'subdir', 'gz', 'subdir+gz'], 'par_gz': [False, True], 'funit': ['mJy', 'Jy', 'nuFnu'], 'grids': ['same', 'interior'], 'single_ap_real': [False, True], 'err_unit': ['same', 'other']}
 
 
 def setup(tier, seed):
@@ -181,6 +181,10 @@ def run_case(ctx, case, rec, d):
     pkgwriter.write_parameters(md1, base_names, {'par1': np.arange(n_models) + 0.5}, order=perm, gz=case.get('par_gz', False))
     layout = case.get('layout', 'flat')
     funit = case.get('funit', 'mJy')
+    nufnu = (funit == 'nuFnu')          # per-file SEDs stored as nu*F_nu in erg/cm^2/s (the cube of the twin package stays in mJy)
+    if nufnu:
+        funit = 'mJy'
+        rec.cls('per-file-seds-stored-as-nuFnu')
     fscale = 1.0 if funit == 'mJy' else 1e-3        # stored number = physical mJy value * fscale
     if funit != 'mJy':
         rec.cls('seds-stored-in-Jy')
@@ -202,7 +206,13 @@ def run_case(ctx, case, rec, d):
     for m, nm in enumerate(base_names):
         fname = ('f%02d_sed.fits' % (n_models - 1 - m)) if case['fnames'] == 'reversed' else None
         eunit, efac = (funit, 1.0) if case.get('err_unit', 'same') == 'same' else (('Jy', 1e-3) if funit == 'mJy' else ('mJy', 1e3))      # error column in the sibling unit
-        pkgwriter.write_sed_file(md1, nm, (wav_m[m] if case['sord'] == 'wav-asc' else wav_m[m][::-1]), flux[m][:, idx_file] * fscale, err[m][:, idx_file] * fscale * efac, unit=funit, err_unit=eunit, apertures_au=ap_file, ap_unit=apu, filename=fname,
+        wfile_m = (wav_m[m] if case['sord'] == 'wav-asc' else wav_m[m][::-1])
+        f_unit_m, nfac = funit, 1.0
+        if nufnu:
+            f_unit_m = 'erg s-1 cm-2'
+            nfac = 1e-26 * (pkgwriter.C_M_S / (np.asarray(wfile_m) * 1e-6))[None, :]
+            eunit, efac = ('erg s-1 cm-2', 1.0) if case.get('err_unit', 'same') == 'same' else ('W m-2', 1e-3)
+        pkgwriter.write_sed_file(md1, nm, wfile_m, flux[m][:, idx_file] * fscale * nfac, err[m][:, idx_file] * fscale * efac * nfac, unit=f_unit_m, err_unit=eunit, apertures_au=ap_file, ap_unit=apu, filename=fname,
                                  subdir=(nm[:4] if m % 2 else nm[:3] + '_') if 'subdir' in layout else None, gz=('gz' in layout and m != 0))
     # cube: cube order = parameter-table order (the format requires it)
     pkgwriter.write_parameters(md2, table_order, {'par1': np.arange(n_models)[perm] + 0.5}, gz=case.get('par_gz', False))
@@ -217,7 +227,7 @@ def run_case(ctx, case, rec, d):
              ('FB', 1.3, np.array([nu_asc[q(4)] * 0.8, nu_asc[q(5)], nu_asc[q(6)]]), np.array([0.2, 1.0, 0.5])),
              ('FC', 12.0, np.linspace(nu_asc[q(0)], nu_asc[q(2)], 6), np.array([0.1, 0.5, 1.0, 0.8, 0.4, 0.1])),
              ('FD', 25.0, np.array([nu_asc[0] * 0.45, nu_asc[0] * 0.8, nu_asc[q(1)], nu_asc[q(2)] * 1.05]), np.array([0.3, 1.0, 0.8, 0.1])),
-             ('FE', 1.0, np.array([nu_asc[q(5)] * 0.97, nu_asc[-1] * 1.02, nu_asc[-1] * 1.4]), np.array([0.1, 1.0, 0.6]))][:case['nfilt']]
+             ('F.E1', 1.0, np.array([nu_asc[q(5)] * 0.97, nu_asc[-1] * 1.02, nu_asc[-1] * 1.4]), np.array([0.1, 1.0, 0.6]))][:case['nfilt']]          # (a filter name may contain a dot)
     if case['nfilt'] >= 5:
         rec.cls('filters-overhanging-both-ends-of-the-spectra')
     filters = [_mkfilter(x, y, nm, cw) for nm, cw, x, y in fdefs]
